@@ -10,6 +10,9 @@ Line protocol for C19 (simulation order from a flowsheet).
   feeds <F_mass per feed, `,`-separated>    → order=<indices after sort_feeds_big_to_small>
   dfs <feed stream> e=<ends> u=<units>      → W=[path>recycle;…] L=[path;…] E=[ends afterwards, sorted]
   sort e=<ends> ( u0 ( u1 u2 r7 ) u3 )      → ( … ) warn=<number of "could not be determined" warnings>
+  fromunits o=<unit order> f=<F_mass per stream id>
+                                            → ( … ) warn=<k>: the whole of Network.from_units on an acyclic
+                                              flowsheet (err=recycle as soon as a walk reports a recycle)
   valid R=<reported recycles> ( … )         → valid | units | dup | order | recycle-on-dag | no-recycle | backward
 
 A network is written `( item … r<stream> … )`; `u<k>` is a unit, `r<k>` a recycle of the
@@ -88,7 +91,16 @@ def step (st : St) (line : String) : St × String :=
       let sinksOK := k.all fun x => match x with | some v => decide (v < n) | none => true
       let hyp := (if sinksOK then "" else " hyp-failed:SinksOK") ++
                  (if o.length ≤ n then "" else " hyp-failed:outs-length") ++
-                 (if (List.range n).all (fun u => !(g.outsOf u).isEmpty) then "" else " hyp-failed:unit-without-outlet")
+                 (if (List.range n).all (fun u => !(g.outsOf u).isEmpty) then "" else " hyp-failed:unit-without-outlet") ++
+                 (if (List.range n).all (fun u => !(g.insOf u).isEmpty) then "" else " hyp-failed:unit-without-inlet") ++
+                 -- `Graph.WF`: port lists and stream ends agree
+                 (if (List.range i.length).all (fun u => (g.insOf u).all fun s => g.sinkOf s == some u) &&
+                     (List.range k.length).all (fun s => match g.sinkOf s with
+                        | some v => (g.insOf v).contains s | none => true) &&
+                     (List.range o.length).all (fun u => (g.outsOf u).all fun s => g.sourceOf s == some u) &&
+                     (List.range c.length).all (fun s => match g.sourceOf s with
+                        | some v => (g.outsOf v).contains s | none => true)
+                  then "" else " hyp-failed:WF")
       ({ g := g }, "ok" ++ hyp)
     | _, _, _, _, _ => bad st
   | ["feeds", f] =>
@@ -110,6 +122,13 @@ def step (st : St) (line : String) : St × String :=
       match sortItem st.g ends it with
       | .error err => (st, "err=" ++ err.toString)
       | .ok (it', w) => (st, joinWith " " (showItem it') ++ s!" warn={w}")
+    | _, _ => bad st
+  | ["fromunits", o, f] =>
+    match (dropKey "o=" o).bind (parseIds ','), (dropKey "f=" f).bind (parseIds ',') with
+    | some order, some fmass =>
+      match fromUnits st.g order fmass with
+      | .error err => (st, "err=" ++ err.toString)
+      | .ok (it, w) => (st, joinWith " " (showItem it) ++ s!" warn={w}")
     | _, _ => bad st
   | "valid" :: r :: net =>
     match (dropKey "R=" r).bind (parseIds ','), parseTop net with
